@@ -217,7 +217,7 @@ def glide_ladder(draw, tier):
 
 def strategy(tier):
     mx = 8 if tier == "quick" else 12
-    return st.one_of(
+    return G.with_options(st.one_of(
         tie_ladder(tier),
         glide_ladder(tier),
         G.gcc_problem(max_rows=12, max_hot=4, max_cold=4, isothermal_utils=True, max_both=0),
@@ -226,7 +226,7 @@ def strategy(tier):
         G.problem(min_streams=3, max_streams=mx, shape="mixed", max_hot=4, max_cold=4, isothermal_utils=True),
         G.problem(min_streams=3, max_streams=mx, shape="mixed", max_hot=4, max_cold=4),
         G.problem(min_streams=2, max_streams=mx, shape="mixed", multi_zone=True, max_hot=3, max_cold=3),
-    )
+    ))
 
 
 PARTS = [Part("service", eval_case, {"quick": 1000, "thorough": 25000}, strategy=strategy, min_nontrivial={"quick": 150, "thorough": 3000})]
